@@ -13,7 +13,7 @@ open OomdModel.Parse OomdModel.Parse.Spec OomdModel.Config OomdModel.Config.Spec
     non-negative, `total * 100` fits int64, SwapTotal fits the `int` KillSwapUsage keeps it in -/
 structure EnvOk (env : Env) : Prop where
   mem : ∀ loc t, env.memAt loc = some t → TotalOk t
-  swap : ∀ loc t, env.swapAt loc = some t → 0 ≤ t ∧ t < 2 ^ 31
+  swap : ∀ loc t, env.swapAt loc = some t → TotalOk t
 
 theorem totalOk_zero : TotalOk 0 := ⟨by decide, by decide⟩
 
@@ -215,16 +215,12 @@ theorem pluginInit_sound {env : Env} (he : EnvOk env) {sch : TypedSchema} (hc : 
     · rw [if_pos hs] at h
       have hd : declaredFor sch args = ⟨sch.args, ["meminfo_location"]⟩ := by
         unfold declaredFor; rw [if_neg hm, if_pos hs]
-      have htot : totalFor env sch args = wrap32 ((env.swapAt (lookupArg args "meminfo_location")).getD 0) := by
+      have htot : totalFor env sch args = (env.swapAt (lookupArg args "meminfo_location")).getD 0 := by
         unfold totalFor; rw [if_neg hm, if_pos hs]
-      have htok : TotalOk (wrap32 ((env.swapAt (lookupArg args "meminfo_location")).getD 0)) := by
+      have htok : TotalOk ((env.swapAt (lookupArg args "meminfo_location")).getD 0) := by
         cases hsw : env.swapAt (lookupArg args "meminfo_location") with
-        | none => simp only [Option.getD_none]; rw [wrap32_id (by decide) (by decide)]; exact totalOk_zero
-        | some t =>
-          obtain ⟨h0, h1⟩ := he.swap _ _ hsw
-          simp only [Option.getD_some]
-          rw [wrap32_id h0 h1]
-          exact ⟨h0, by omega⟩
+        | none => simp only [Option.getD_none]; exact totalOk_zero
+        | some t => simp only [Option.getD_some]; exact he.swap _ _ hsw
       rw [isExtern_erase] at h
       exact argsOk_of_parse hd htok htot (by simpa only [isExtern] using h)
     · rw [if_neg hs] at h
